@@ -23,7 +23,12 @@
 //   is scale-covariant: design/C17.md, "What the theorem does not give")
 // PLACE netmodel seed maxsteps W nrows rowh ncells {w fixed x y}* nnets { np w4 {cell xo yo}* }*
 //   result: per factor in 1 2 0.5 2.5 7 (weights and penalty.initialValue times the factor):
-//     "T x y x y ... ;" per callback and at the end; then " # W " netWeight read back from x/yTopology at factor 1
+//     "T<s> x y x y ... ;" per callback (s = L lower bound, U upper bound, P penalty update) and "TF ..." at the end; then " # W "
+//     netWeight read back from x/yTopology at factor 1
+//   optional tail (stream "placep"): npar { id num den }*   accepted parameter values other than the defaults, value = num / den in
+//     double (correctly rounded: 49/100 is the literal 0.49); id 0 = effort of the ColoquinteParameters constructor, the others see
+//     setPlaceParam; penalty.initialValue (id 15) is the BASE strength, still multiplied by the factor.  ColoquinteParameters::check()
+//     is called first: "REJECTED <what>" when it throws (the case is then outside the accepted domain, not a C17 matter)
 #include "vh.hpp"
 #include <cfenv>
 #include <cmath>
@@ -38,7 +43,8 @@
 using namespace coloquinte;
 
 struct Rd { std::vector<long long> v; size_t p = 0; long long nx() { if (p >= v.size()) throw std::runtime_error("short case line"); return v[p++]; }
-  float q() { long long n = nx(); long long e = nx(); return std::ldexp((float)n, -(int)e); } };
+  float q() { long long n = nx(); long long e = nx(); return std::ldexp((float)n, -(int)e); }
+  bool more() const { return p < v.size(); } };
 
 static std::string showf(float v) {
   if (v == 0.0f) return "0 0";
@@ -197,6 +203,33 @@ static void runSolveK(Rd &r) {
 }
 
 static const float kPlaceFactors[5] = {1.0f, 2.0f, 0.5f, 2.5f, 7.0f};
+// one parameter of the global placement stage (ids of the PLACE tail); every field ColoquinteParameters::check() constrains for placeGlobal
+static void setPlaceParam(ColoquinteParameters &p, int id, double v) {
+  GlobalPlacerParameters &g = p.global; PenaltyParameters &pe = g.penalty; ContinuousModelParameters &cm = g.continuousModel;
+  RoughLegalizationParameters &rl = g.roughLegalization;
+  switch (id) {
+    case 1: g.maxNbSteps = (int)v; break;                 case 2: g.nbInitialSteps = (int)v; break;
+    case 3: g.nbStepsBeforeRoughLegalization = (int)v; break;
+    case 4: g.gapTolerance = v; break;                    case 5: g.distanceTolerance = v; break;
+    case 6: g.penaltyUpdateDistance = v; break;           case 7: g.penaltyUpdateBackoff = v; break;
+    case 8: g.exportBlending = v; break;                  case 9: g.noise = v; break;
+    case 10: pe.cutoffDistance = v; break;                case 11: pe.cutoffDistanceUpdateFactor = v; break;
+    case 12: pe.areaExponent = v; break;                  case 13: pe.updateFactor = v; break;
+    case 14: pe.targetBlending = v; break;                case 15: pe.initialValue = v; break;
+    case 16: cm.approximationDistance = v; break;         case 17: cm.approximationDistanceUpdateFactor = v; break;
+    case 18: cm.maxNbConjugateGradientSteps = (int)v; break;
+    case 19: cm.conjugateGradientErrorTolerance = v; break;
+    case 20: rl.nbSteps = (int)v; break;                  case 21: rl.binSize = v; break;
+    case 22: rl.lineReoptSize = (int)v; break;            case 23: rl.lineReoptOverlap = (int)v; break;
+    case 24: rl.diagReoptSize = (int)v; break;            case 25: rl.diagReoptOverlap = (int)v; break;
+    case 26: rl.squareReoptSize = (int)v; break;          case 27: rl.squareReoptOverlap = (int)v; break;
+    case 28: rl.quadraticPenalty = v; break;              case 29: rl.targetBlending = v; break;
+    case 30: rl.costModel = (LegalizationModel)(int)v; break;
+    case 31: rl.unidimensionalTransport = v != 0; break;
+    case 32: rl.sideMargin = v; break;                    case 33: rl.coarseningLimit = v; break;
+    default: throw std::runtime_error("unknown PLACE parameter id");
+  }
+}
 static void runPlace(Rd &r) {
   int model = (int)r.nx(); int seed = (int)r.nx(); int maxsteps = (int)r.nx();
   int W = (int)r.nx(), nrows = (int)r.nx(), rowh = (int)r.nx(); int nc = (int)r.nx();
